@@ -309,7 +309,8 @@ KINDS = {
            ("invmail", "INVMAILTRNRQ", None, "invstmtmsgsrqv1")],
     "rs": [("stmt", "STMTTRNRS", "stmtrs", "bankmsgsrsv1"), ("stmtend", "STMTENDTRNRS", "stmtendrs", "bankmsgsrsv1"), ("cc", "CCSTMTTRNRS", "ccstmtrs", "creditcardmsgsrsv1"),
            ("ccend", "CCSTMTENDTRNRS", "ccstmtendrs", "creditcardmsgsrsv1"), ("inv", "INVSTMTTRNRS", "invstmtrs", "invstmtmsgsrsv1"), ("mail", "BANKMAILTRNRS", None, "bankmsgsrsv1"),
-           ("invmail", "INVMAILTRNRS", None, "invstmtmsgsrsv1"), ("stmt-empty", "STMTTRNRS", "stmtrs", "bankmsgsrsv1")],
+           ("invmail", "INVMAILTRNRS", None, "invstmtmsgsrsv1"), ("stmt-empty", "STMTTRNRS", "stmtrs", "bankmsgsrsv1"),
+           ("inv-empty", "INVSTMTTRNRS", "invstmtrs", "invstmtmsgsrsv1"), ("cc-empty", "CCSTMTTRNRS", "ccstmtrs", "creditcardmsgsrsv1")],
 }
 MSGSET_ORDER = {"rq": ["bankmsgsrqv1", "creditcardmsgsrqv1", "invstmtmsgsrqv1"], "rs": ["bankmsgsrsv1", "creditcardmsgsrsv1", "invstmtmsgsrsv1"]}
 
@@ -326,7 +327,7 @@ def ofx_work(chunk):
             _, wcls, sattr, mset = table[kind]
             c = U.cls_by_name(wcls)
             term = U.MIN(c)
-            if side == "rs" and sattr and kind != "stmt-empty":
+            if side == "rs" and sattr and not kind.endswith("-empty"):
                 sc = S.child_map(c)[sattr]
                 term = U.min_with(c, sc)
             term = (term[0], dict(term[1], trnuid=f"T{i}"), term[2])
@@ -458,7 +459,7 @@ def run(ctx):
         "rule": "every class x shapes {MIN, MAXS, MAXS with every Bool False / Integer 0 / Decimal zero, MAXS with the loggers at DEBUG, MAXS with each optional sub-aggregate toggled / each group switched / each repeated kind at 0,1,2,3 members"
         + (", sub-aggregates at MAXS, MAXD" if ctx.thorough else "") + "} x every name declared by exactly one non-repeated descendant aggregate and not by the class itself (must be the stored "
         "object, or a clean miss when the defining aggregate is absent) + 6 undefined names (AttributeError, hasattr False, default honoured) + copy/deepcopy/pickle of the instance as built and as read back from its own element tree (equal model) "
-        "+ alias properties; OFX trees from every sequence of <=3 wrappers over 7 request / 8 response kinds: (and again after a wrapper was appended to / removed from a message set) OFX.statements and each message set's statements equal the explicit "
+        "+ alias properties; OFX trees from every sequence of <=3 wrappers over 7 request / 10 response kinds (incl. bank, credit-card and investment wrappers carrying only a status): (and again after a wrapper was appended to / removed from a message set) OFX.statements and each message set's statements equal the explicit "
         "walk by identity and order; OFX.securities over 0-2 lists x 0-2 securities; distinct_nontrivial = proxy look-ups",
         "instances": tally.counts.get("instances", 0),
         "ofx_trees": tally.counts.get("ofx-trees", 0),
